@@ -120,7 +120,7 @@ def check_case(case):
         viol, nops, nobs = lc.check_history(kinds, hist, z, variant=VARIANT)
     finally:
         z.close()
-    return [(k, w) for k, w, p in viol]
+    return [(PID + k[3:], w) for k, w, p in viol]
 
 
 def _work(job):
@@ -140,7 +140,7 @@ def _work(job):
         acc.add(transitions=nops, traces=1, evaluations=nobs)
         acc.count("leaf_histories:" + sub)
         for key, (what, prefix) in lc.min_violations(viol).items():
-            acc.violation(key, what, {"kinds": [list(k) for k in kinds], "history": prefix})
+            acc.violation(PID + key[3:], what, {"kinds": [list(k) for k in kinds], "history": prefix})
     if lo == 0:
         j = _JOBS[min(len(_JOBS) - 1, 40)]
         if j[0] == "hist":
@@ -148,15 +148,15 @@ def _work(job):
     return acc.pack()
 
 
-def build_jobs(tier, seed0):
+def build_jobs(tier, seed0, d1=None, d2=None, two=True):
     jobs, subs = [], []
-    d1 = 5 if tier == "quick" else 7
+    d1 = d1 or (5 if tier == "quick" else 7)
     lv, npre = lc.leaves("SINPF", 1, d1)
     for k in KINDS:
         jobs += [("hist", "one-object", (k,), h) for h in lv]
     subs.append(("one object, alphabet {S,I,N,P,F}: all histories to depth %d (%d histories, %d executed leaves) x 6 engine kinds"
                  % (d1, npre, len(lv)), npre * len(KINDS), len(lv) * len(KINDS)))
-    d2 = 4 if tier == "quick" else 6
+    d2 = d2 or (4 if tier == "quick" else 6)
     lv2, npre2 = lc.leaves("STINPF", 1, d2)
     k2 = [KINDS[0], KINDS[5]] if tier == "quick" else KINDS
     for k in k2:
@@ -165,14 +165,14 @@ def build_jobs(tier, seed0):
                  % (d2, npre2, len(k2)), npre2 * len(k2), len(lv2) * len(k2)))
     d3 = 4
     lv3, npre3 = lc.leaves("SINPF", 2, d3)
-    pairs = [(a, b) for a in KINDS for b in KINDS]
-    if tier == "quick":
+    pairs = [(a, b) for a in KINDS for b in KINDS] if two else []
+    if tier == "quick" and two:
         pairs = [(KINDS[0], KINDS[0]), (KINDS[0], KINDS[5]), (KINDS[4], KINDS[1]), (KINDS[3], KINDS[2])]
     for pr in pairs:
         jobs += [("hist", "two-objects", pr, h) for h in lv3]
     subs.append(("two objects: all interleavings to total depth %d (%d histories) x %d ordered kind pairs" % (d3, npre3, len(pairs)),
                  npre3 * len(pairs), len(lv3) * len(pairs)))
-    if tier == "thorough":
+    if tier == "thorough" and two:
         lv4, npre4 = lc.leaves("SINPF", 2, 6)
         pairs6 = [(KINDS[0], KINDS[0]), (KINDS[0], KINDS[5]), (KINDS[4], KINDS[1])]
         for pr in pairs6:
